@@ -1,6 +1,8 @@
 use crate::diagnostic_emitter::MosResult;
 use crate::impl_request_handler;
-use crate::lsp::{to_line_col, to_location, to_range, LspContext, RequestHandler};
+use crate::lsp::{
+    document_path, to_line_col, to_location, to_range, LspContext, RequestHandler,
+};
 use itertools::Itertools;
 use lsp_types::request::{DocumentHighlightRequest, GotoDefinition, References};
 use lsp_types::{
@@ -33,16 +35,14 @@ impl RequestHandler<GotoDefinition> for GoToDefinitionHandler {
         if let Some((_, def)) = defs.first() {
             if let Some(location) = &def.location {
                 let tree = ctx.tree.as_ref().unwrap();
-                let origin = def.try_get_usage_containing(
-                    tree,
-                    &params
-                        .text_document_position_params
-                        .text_document
-                        .uri
-                        .to_file_path()
-                        .unwrap(),
-                    to_line_col(&params.text_document_position_params.position),
-                );
+                let origin = document_path(&params.text_document_position_params.text_document.uri)
+                    .and_then(|path| {
+                        def.try_get_usage_containing(
+                            tree,
+                            &path,
+                            to_line_col(&params.text_document_position_params.position),
+                        )
+                    });
                 let origin = origin.map(|dl| tree.code_map.look_up_span(dl.span));
 
                 let l = analysis.look_up(location.span);
@@ -72,13 +72,12 @@ impl RequestHandler<References> for FindReferencesHandler {
         let codegen = ctx.codegen().unwrap();
         let codegen = codegen.lock().unwrap();
         let analysis = codegen.analysis();
+        let path = match document_path(&params.text_document_position.text_document.uri) {
+            Some(path) => path,
+            None => return Ok(None),
+        };
         let defs = analysis.find_filter(
-            params
-                .text_document_position
-                .text_document
-                .uri
-                .to_file_path()
-                .unwrap(),
+            path,
             to_line_col(&params.text_document_position.position),
             |ty| matches!(ty, DefinitionType::Symbol(_)),
         );
